@@ -254,9 +254,10 @@ class Region:
                     elif op == 'and': r = a & b
                     elif op == 'or': r = a | b
                     elif op == 'xor': r = a ^ b
-                    elif op == 'shl': r = a << (b % w)
-                    elif op == 'lshr': r = (a & m) >> (b % w)
-                    elif op == 'ashr': r = signed(a, w) >> (b % w)
+                    elif op in ('shl', 'lshr', 'ashr'):
+                        if b >= w:
+                            raise OutOfBounds('%s: shift by %d of a %d-bit value at %s (undefined behaviour)' % (f.name, b, w, ins.loc()))
+                        r = a << b if op == 'shl' else ((a & m) >> b if op == 'lshr' else signed(a, w) >> b)
                     elif op in ('udiv', 'urem'):
                         if b == 0:
                             raise Unsupported('division by zero')
